@@ -25,6 +25,7 @@ fn handle(case: &Value) -> Value {
         "ssa_validate_eval" => circ::ssa_validate_eval(case),
         "reg_validate_eval" => circ::reg_validate_eval(case),
         "compile" => lang::compile(case),
+        "convert" => circ::convert(case),
         "builder_run" => builder::builder_run(case),
         "compile_eval" => lang::compile_eval(case),
         _ => json!({"error": format!("unknown op {op}")}),
